@@ -179,6 +179,10 @@ func (k Keeper) AddDeposit(ctx sdk.Context, receiverAddr, senderAddr sdk.AccAddr
 			// refresh stream data, since deposits and total streamed may have changed
 			// after claim stream call
 			stream, _ = k.GetStream(ctx, receiverAddr, senderAddr)
+		} else {
+			// nothing left to settle: the new funding period starts now, so the next
+			// claim must not count the time the stream sat empty
+			stream.LastOutflowTime = nowTime
 		}
 
 		// stream expired or new. Calculate from now
